@@ -76,6 +76,7 @@ PROPS = {
             'str::split / str::trim semantics are the uninterpreted comma_tokens (A-std-split-01)',
         ]),
     'C12': dict(
+        witness=[dict(append_to='tonic/src/service/interceptor.rs', module='replay/interceptor_witness.rs', crate='tonic', filter='verif_witness_interceptor', features=['--features', 'gzip,deflate,zstd']), dict(append_to='tonic/src/status.rs', module='replay/status_witness.rs', crate='tonic', filter='verif_witness_status', features=['--features', 'gzip,deflate,zstd'])],
         units=['reqresp', 'status'], level='proof',
         not_covered=[
             'the Interceptor itself is an arbitrary relation (any function of the request); the inner service is seen through a ghost log of the requests it was called with (A-tower-01)',
